@@ -7,6 +7,15 @@ Open Scope Z_scope.
 Definition through_breaker (k : wkind) : bool :=
   match k with WSqlPredicate | WRedisIgnoredCmd => false | _ => true end.
 
+Lemma wrap_through : forall k rej ctxdone d,
+  through_breaker k = true ->
+  wrap k rej ctxdone d =
+  if w_uses_ctx k && ctxdone then mkWR 0 0 0 0 SCtxErr
+  else if rej then mkWR 0 0 0 1 (rejected_seen k)
+  else let ok := match d with DPanic => false | _ => w_acceptable k d end in
+       mkWR 1 (if ok then 1 else 0) (if ok then 0 else 1) 0 (pass_seen k d).
+Proof. intros k rej ctxdone d Hk. destruct k; try discriminate Hk; reflexivity. Qed.
+
 Lemma wrap_once : forall k rej ctxdone d,
   through_breaker k = true ->
   let r := wrap k rej ctxdone d in
@@ -22,12 +31,17 @@ Lemma wrap_once : forall k rej ctxdone d,
      (wr_succ r = 1 <-> (d <> DPanic /\ w_acceptable k d = true)) /\
      wr_seen r = pass_seen k d).
 Proof.
-  intros k rej ctxdone d Hk. cbn zeta. unfold wrap.
-  destruct k; try discriminate Hk; cbn [w_uses_ctx andb];
-    destruct ctxdone, rej; cbn [wr_invoked wr_succ wr_fail wr_drop wr_seen];
-    repeat split; intros; try discriminate; try lia;
-    try (destruct d; cbn in *; try destruct (grpc_failure_code _); cbn in *; try lia; try discriminate; try tauto;
-         try (split; [discriminate|reflexivity]); try (destruct H1; congruence); try (destruct H1 as [? ?]; congruence)).
+  intros k rej ctxdone d Hk. cbn zeta. rewrite (wrap_through k rej ctxdone d Hk).
+  set (ok := match d with DPanic => false | _ => w_acceptable k d end).
+  assert (Hok : ok = true <-> (d <> DPanic /\ w_acceptable k d = true)).
+  { unfold ok. destruct d; split; try (intros H; split; [discriminate|exact H]); try (intros (_ & H); exact H);
+      try discriminate; intros (H & _); contradiction. }
+  destruct (w_uses_ctx k && ctxdone); [|destruct rej]; cbn [wr_invoked wr_succ wr_fail wr_drop wr_seen].
+  - repeat split; intros; try discriminate; lia.
+  - repeat split; intros; try discriminate; lia.
+  - cbn zeta. fold ok. split; [destruct ok; lia|]. split; [discriminate|]. split; [discriminate|].
+    intros _ _. split; [reflexivity|]. split; [reflexivity|]. split; [destruct ok; reflexivity|].
+    split; [|reflexivity]. rewrite <- Hok. destruct ok; split; intros; try discriminate; reflexivity.
 Qed.
 
 Lemma wrap_bypass : forall rej ctxdone d,
@@ -37,6 +51,41 @@ Proof. intros. cbn. auto. Qed.
 
 (* the wrapper is the entry point DoWithAcceptable[Ctx] of the breaker model, with the
    downstream outcome classified by its predicate *)
+Lemma w_outcome_ok : forall k d,
+  through_breaker k = true ->
+  counts_as_success EDoAcc (w_outcome k d) = match d with DPanic => false | _ => w_acceptable k d end.
+Proof.
+  intros k d Hk. unfold w_outcome.
+  destruct d; try reflexivity; try (destruct (w_acceptable k _); reflexivity).
+  destruct k as [| | | | | | | | |m u]; try discriminate Hk; try reflexivity. destruct m; reflexivity.
+Qed.
+
+Lemma wrap_is_entry_live : forall cfg w k (ctxdone : bool) d gap dur u cm,
+  through_breaker k = true -> cm = CLive \/ cm = CNone -> w_uses_ctx k && ctxdone = false ->
+  let c := mkCall EDoAcc cm (w_outcome k d) gap dur u in
+  let now := w_clock w + gap in
+  let o := snd (step cfg w c) in
+  let w' := fst (step cfg w c) in
+  let rej := match o_verdict o with Some VReject => true | _ => false end in
+  let r := wrap k rej ctxdone d in
+  wr_invoked r = o_req o /\
+  w_marks w' = w_marks w ++
+    (if wr_drop r =? 1 then [(now, v_drop)]
+     else if wr_succ r =? 1 then [(now + dur, v_success)]
+     else if wr_fail r =? 1 then [(now + dur, v_fail)] else []).
+Proof.
+  intros cfg w k ctxdone d gap dur u cm Hk Hcm Hshort. cbn zeta. rewrite step_unfold. cbn zeta.
+  cbn [k_ctx k_gap k_dur k_entry k_out k_u].
+  rewrite (w_outcome_ok k d Hk).
+  set (ok := match d with DPanic => false | _ => w_acceptable k d end).
+  destruct Hcm as [-> | ->];
+    (match goal with |- context [decide ?a ?b ?c ?e ?f] => destruct (decide a b c e f) end;
+     cbn [rejected fst snd o_verdict o_req w_marks is_allow];
+     rewrite (wrap_through k _ ctxdone d Hk), Hshort; cbn zeta; fold ok;
+     cbn [wr_invoked wr_succ wr_fail wr_drop];
+     (split; [reflexivity|]); destruct ok; reflexivity).
+Qed.
+
 Lemma wrap_is_entry : forall cfg w k (ctxdone : bool) d gap dur u,
   through_breaker k = true ->
   let cm := if w_uses_ctx k then (if ctxdone then CDone else CLive) else CNone in
@@ -52,15 +101,12 @@ Lemma wrap_is_entry : forall cfg w k (ctxdone : bool) d gap dur u,
      else if wr_succ r =? 1 then [(now + dur, v_success)]
      else if wr_fail r =? 1 then [(now + dur, v_fail)] else []).
 Proof.
-  intros cfg w k ctxdone d gap dur u Hk. cbn zeta. rewrite step_unfold. cbn zeta.
-  cbn [k_ctx k_gap k_dur k_entry k_out k_u].
-  destruct k; try discriminate Hk; cbn [w_uses_ctx]; destruct ctxdone; cbn [fst snd o_verdict o_req w_marks];
-    try (unfold wrap; cbn; rewrite app_nil_r; auto; fail);
-    match goal with |- context [decide ?a ?b ?c ?e ?f] => destruct (decide a b c e f) end;
-    cbn [rejected fst snd o_verdict o_req w_marks is_allow];
-    unfold wrap; cbn [w_uses_ctx andb wr_invoked wr_succ wr_fail wr_drop];
-    try (split; reflexivity);
-    destruct d; cbn; try destruct (grpc_failure_code _); cbn; auto.
+  intros cfg w k ctxdone d gap dur u Hk.
+  destruct (w_uses_ctx k) eqn:Eu; [destruct ctxdone|].
+  - cbn zeta. rewrite step_unfold. cbn zeta. cbn [k_ctx fst snd o_verdict o_req w_marks].
+    rewrite (wrap_through k _ true d Hk), Eu. cbn. rewrite app_nil_r. auto.
+  - apply wrap_is_entry_live; [exact Hk|auto|rewrite Eu; reflexivity].
+  - apply wrap_is_entry_live; [exact Hk|auto|rewrite Eu; reflexivity].
 Qed.
 
 (* ---- which outcomes count as failures *)
@@ -81,9 +127,12 @@ Lemma acceptability_tables :
   (* redis: nil, redis.Nil, context.Canceled (also wrapped) are fine, everything else fails *)
   (forall d, redis_acceptable d = true <->
      d = DNil \/ d = DRedisNil \/ d = DWrappedRedisNil \/ d = DCtxCanceled \/ d = DWrappedCanceled) /\
-  (* sql: nil, ErrNoRows, ErrTxDone, context.Canceled (also wrapped), acceptableError *)
+  (* sql: nil, ErrNoRows, ErrTxDone, context.Canceled (also wrapped), acceptableError, what a
+     WithAcceptable option accepts; for the Query* methods also a failure to scan the rows *)
   (forall d, sql_acceptable d = true <->
-     d = DNil \/ d = DSqlNoRows \/ d = DSqlTxDone \/ d = DCtxCanceled \/ d = DWrappedCanceled \/ d = DSqlAcceptable) /\
+     d = DNil \/ d = DSqlNoRows \/ d = DSqlTxDone \/ d = DCtxCanceled \/ d = DWrappedCanceled \/ d = DSqlAcceptable \/
+     exists i n, d = DSqlCustom i n /\ 1 <= i <= n) /\
+  (forall d, sqlq_acceptable d = true <-> d = DSqlScanFail \/ sql_acceptable d = true) /\
   (* REST: Accept iff the status seen by the deferred function is below 500; a handler that
      panics before writing a status leaves 200 there *)
   (forall h, rest_accepts h = true <-> h_code h < 500) /\ rest_accepts (HPanic None) = true.
@@ -97,8 +146,13 @@ Proof.
   - intros [->|[->|(c & -> & H)]]; cbn; try reflexivity. rewrite H. reflexivity.
   - destruct d; cbn; try discriminate; tauto.
   - intros [->|[->|[->|[->| ->]]]]; reflexivity.
-  - destruct d; cbn; try discriminate; tauto.
-  - intros [->|[->|[->|[->|[->| ->]]]]]; reflexivity.
+  - destruct d; cbn; try discriminate; try tauto.
+    intros H. apply andb_true_iff in H. destruct H as (H1 & H2). apply Z.leb_le in H1. apply Z.leb_le in H2.
+    repeat right. exists i, n. auto.
+  - intros [->|[->|[->|[->|[->|[->|(i & n & -> & H1 & H2)]]]]]]; try reflexivity.
+    cbn. apply andb_true_iff. split; apply Z.leb_le; assumption.
+  - destruct d; cbn; auto.
+  - intros [->|H]; [reflexivity|]. destruct d; cbn in *; auto.
   - unfold rest_accepts. apply Z.ltb_lt.
   - unfold rest_accepts. apply Z.ltb_lt.
 Qed.
